@@ -282,7 +282,7 @@ def aggregate(prop, tier, seed, contracts, results, split_errors, known, t_start
             unproved.append({'contract': ci.name, 'function': ci.target or ci.const or ci.name, 'reason': p['unsupported'][:3]})
         if len(uniq) == 0 and not p['errors']:
             crashes.append((ci.name, 'zero obligations generated (vacuity guard)'))
-        form = ('loop-step' if getattr(ci.pycls, 'step', None) else 'tail' if getattr(ci.pycls, 'tail', None) else 'cut-point' if getattr(ci.pycls, 'cut', None)
+        form = ('loop-step' if getattr(ci.pycls, 'step', None) else 'segment' if (getattr(ci.pycls, 'tail', None) and getattr(ci.pycls, 'cut', None)) else 'tail' if getattr(ci.pycls, 'tail', None) else 'cut-point' if getattr(ci.pycls, 'cut', None)
                 else 'history-lemma' if (ci.kind == 'lemma' and getattr(ci.pycls, 'inline', None)) else ci.kind)
         functions.append({'contract': ci.name, 'target': ci.target or ci.const or '(lemma)', 'kind': ci.kind, 'form': form,
                           'loop': getattr(ci.pycls, 'step', None) or getattr(ci.pycls, 'cut', None) or getattr(ci.pycls, 'tail', None), 'paths': p['paths'],
